@@ -958,3 +958,58 @@ def rule_json_fields(ctx, prop):
                           f"{skips or 'n/a'}): a pure deletion is printed without `expected`, a pure insertion without `original`, so the "
                           f"JSON mismatches can no longer be applied as line-range replacements", g.loc(), cfg)
     return rep
+
+
+# ---------------------------------------------------------------------------------------------------------------
+# R-DIFFDEP: the diff engine the producers are built against. `similar` is assumed correct by the other C18 rules; this
+# rule records where that assumption is known to be false. Versions listed here were confirmed defective by running the
+# crate alone (no StyLua code involved): with the default (Myers) and the Patience algorithm, `from_lines("a\nb\nc\n",
+# "b\nc\nb\nc\n")` yields Delete{old 0, new_index 1}, Equal{old 1, new 0, len 2}, Insert{old_index 2, new 2, len 2} - op
+# indices that do not tile the two texts. StyLua copies them into the JSON mismatches, and the unified printer derives
+# `@@ -1,2 +2,3 @@` from them (rejected by patch(1)). Algorithm::Lcs gives consistent ops in the same version.
+DEFECTIVE_SIMILAR = {
+    "2.4.0": "Myers/Patience DiffOp indices do not tile the texts when a line is deleted in front of, and an equal run is "
+             "re-inserted behind, a repeated block (`a b c` -> `b c b c`)",
+}
+
+
+def rule_dep(ctx, prop):
+    import os
+    rep = Report(prop, "R-DIFFDEP", "the diff engine pinned by Cargo.lock, with the algorithm the producers select, is not "
+                                    "one confirmed to report inconsistent DiffOp indices")
+    root = getattr(ctx, "repo", None) or "/repo"
+    ver = None
+    try:
+        txt = open(os.path.join(root, "Cargo.lock")).read()
+        m = re.search(r'\[\[package\]\]\s*\nname = "similar"\s*\nversion = "([^"]+)"', txt)
+        ver = m.group(1) if m else None
+    except OSError:
+        pass
+    if not rep.anchor(ver is not None, "version of crate similar in Cargo.lock"):
+        return rep
+    cfg0 = ctx.configs[0]
+    prog = ctx.programs[cfg0]
+    n = 0
+    for f in prog.fns("stylua"):
+        if not re.search(PRODUCERS, f.path):
+            continue
+        ctor = [(b, t) for b, t in f.calls() if re.search(r"TextDiff.*::from_lines$", callee(t)) or callee(t).endswith("::from_lines")]
+        alg = [(b, t) for b, t in f.calls() if re.search(r"TextDiffConfig.*::algorithm$", callee(t))]
+        if not ctor and not alg:
+            continue
+        if not re.search(r"output_diff_(json|unified)$", f.path):
+            continue    # the coloured `standard` rendering is for reading, the property does not ask to apply it
+        n += 1
+        default_alg = bool(ctor) and not alg
+        bad = ver in DEFECTIVE_SIMILAR and default_alg
+        rep.inst(f"{f.key} diff engine similar-{ver} algorithm={'default(Myers)' if default_alg else 'configured'}",
+                 {"fn": f.key, "similar": ver}, None, ok=not bad)
+        if bad:
+            rep.violation(f"{f.key} diff-engine-with-inconsistent-ops similar-{ver} default-algorithm",
+                          f"{f.path} diffs with similar {ver} and its default algorithm: {DEFECTIVE_SIMILAR[ver]}; for the file "
+                          f"`f() g()\\nf()\\ng()\\n` (formatted: `f()\\ng()\\nf()\\ng()\\n`) the JSON insertion is reported at original line 2 "
+                          f"instead of 3 and the unified hunk header is `@@ -1,2 +2,3 @@`, so applying the printed diff does "
+                          f"not give the formatted file", f.loc(ctor[0][1]["sp"]), None,
+                          witness={"input": "f() g()\nf()\ng()\n", "argv": "stylua --check --output-format=json|unified a.lua"})
+    rep.floor("appliable diff producers (json, unified) with a TextDiff construction", n, 2)
+    return rep
